@@ -53,7 +53,7 @@ impl Args {
             ex_groups: 0,
             cap_ms: 0,
             mem_cap: 8 << 30,
-            steps: 20_000,
+            steps: 100_000,
             selftest_seeds: 0,
         };
         let mut i = 2;
@@ -90,10 +90,10 @@ impl Args {
         }
         let thorough = a.tier == "thorough";
         if a.ip_plans == 0 {
-            a.ip_plans = if thorough { 32 } else { 12 };
+            a.ip_plans = if thorough { 16 } else { 12 };
         }
         if a.ex_plans == 0 {
-            a.ex_plans = if thorough { 10 } else { 5 };
+            a.ex_plans = if thorough { 8 } else { 5 };
         }
         if a.ip_groups == 0 {
             // harvested programs come first, generated ones after; thorough is time-boxed instead
